@@ -28,7 +28,7 @@ def run(ctx):
         more += ctx.tlc_gen("MC_Persist", gen(crash="FALSE", invs=INVS, maxops=4, maxhist=7, nodeids="{1}", labels="LS2", view="",
                                               emit="ACTION_CONSTRAINT EmitRec"),
                             "allseq4", workers=WORKERS, timeout=1800)
-    scripts += cap(ctx, more, 70 if q else 1200)
+    scripts += cap(ctx, more, 70 if q else 600)
     # every script is one request sequence followed by Restart, Recover
     scripts = [s for s in scripts if [st["op"] for st in s[-2:]] == ["Restart", "Recover"]
                and not any(st["op"] in ("Restart", "Recover", "Crash") for st in s[1:-2])]
@@ -40,6 +40,6 @@ def run(ctx):
                "wall-clock timestamps (created_at / updated_at) are not compared")
     reps = 2 if q else 3
     sp = ctx.write_scripts("persist-rep", scripts)
-    tr = ctx.run_harness("persist", sp, name="persist-rep", args=["mode=rep", "replicas=%d" % reps, "jobs=%d" % min(JOBS, 6)], timeout=3000,
+    tr = ctx.run_harness("persist", sp, name="persist-rep", args=["mode=rep", "replicas=%d" % reps, "jobs=%d" % min(JOBS, 6)], timeout=7200,
                          env=harness_env())
     ctx.validate("Persist_Trace", TRACE.format(bind_usage="FALSE"), tr, name="persist-rep", jobs=JOBS, corrupt=corrupt_recover)
